@@ -187,9 +187,11 @@ def _side_conditions(program, res, eng):
     # (a) enc_term_: a term that is None or equal to its key is emitted as quote_identifier(key)
     et = eng.sm.methods["enc_term_"]
     ok = False
+    from .. import pat
+    kparam = [p_ for p_ in et.params() if p_ not in ("self", "terms")][0]
     for n in ast.walk(et.node):
-        if isinstance(n, ast.If) and "v == k" in unparse(n.test) and any(
-                isinstance(b, ast.Return) and unparse(b.value) == "self.quote_identifier(k)" for b in n.body):
+        if isinstance(n, ast.If) and any(e.get("_K") == kparam or e.get("_V") == kparam for (_c, e) in pat.find("_V == _K", n.test)) and any(
+                isinstance(b, ast.Return) and unparse(b.value) == f"self.quote_identifier({kparam})" for b in n.body):
             ok = True
     eng.keyalias_ok = ok
     if ok:
@@ -238,7 +240,11 @@ def _side_conditions(program, res, eng):
     # (c) numeric by comparison: _db_lag_expr uses `periods` only under a numeric comparison (a str raises TypeError there)
     lag = program.module("sql_model").functions.get("_db_lag_expr")
     if lag is not None:
-        uses = [n for n in ast.walk(lag.node) if isinstance(n, ast.FormattedValue) and "periods" in unparse(n.value)]
+        # the local bound to the second argument's value (`periods = expression.args[1].value`)
+        pv = [e["_P"] for (_n, e) in pat.find("_P = expression.args[1].value", lag.node)]
+        pname = pv[0] if pv else None
+        uses = [n for n in ast.walk(lag.node) if isinstance(n, ast.FormattedValue) and pname is not None
+                and any(isinstance(x, ast.Name) and x.id == pname for x in ast.walk(n.value))]
         guarded = True
         parents = {}
         for n in ast.walk(lag.node):
@@ -250,14 +256,14 @@ def _side_conditions(program, res, eng):
             while x in parents:
                 pnode = parents[x]
                 if isinstance(pnode, ast.If) and isinstance(pnode.test, ast.Compare) and isinstance(pnode.test.left, ast.Name) \
-                        and pnode.test.left.id == "periods" and isinstance(pnode.test.ops[0], (ast.Lt, ast.Gt, ast.LtE, ast.GtE)) \
+                        and pnode.test.left.id == pname and isinstance(pnode.test.ops[0], (ast.Lt, ast.Gt, ast.LtE, ast.GtE)) \
                         and isinstance(pnode.test.comparators[0], ast.Constant) and isinstance(pnode.test.comparators[0].value, (int, float)):
                     okg = True
                 x = pnode
             guarded = guarded and okg
         if uses and guarded:
             eng.numeric_guarded.add(("_db_lag_expr", "expression.args.value"))
-            res.ok("C14-S1", "_db_lag_expr: `periods` reaches the SQL only under an ordering comparison with a number (a str raises TypeError)")
+            res.ok("C14-S1", f"_db_lag_expr: `{pname}` reaches the SQL only under an ordering comparison with a number (a str raises TypeError)")
 
 
 def _formatter_functions(program) -> Dict[int, Tuple[str, object]]:
